@@ -317,6 +317,10 @@ class Extractor:
             return errs, cur
         if isinstance(st, ast.Continue):
             return [], []
+        if isinstance(st, ast.Raise) and self.collect is not None:
+            for p in cur:
+                self.collect.append((p, ast.Name(id="RAISE", ctx=ast.Load())))
+            return [], []
         if isinstance(st, ast.Try):
             # try: <assignments> except E: return <error>   ->  error path 'raises(<body>)'
             if st.finalbody or st.orelse:
